@@ -360,6 +360,7 @@ def frames(run):
                             nw = len(E2.writes)
                             snap = {k: v for k, v in mod.fields.items()}
                             out1 = E2.call(E2.getattr(mod, "forward"), [x], {})
+                            E2.ps["fwd_out"] = out1
                             w1 = list(E2.writes[nw:])
                             nw = len(E2.writes)
                             qw = E2.getattr(mod, "qweight")
@@ -391,6 +392,15 @@ def frames(run):
                             run.add(f"C13/qweight-writes-nothing[{tag}]/path{pi}", r.hyps, z3.BoolVal(not b2), "property", inst, {"writes": b2[:5]}, replay=rp)
                             same = all(mod.fields.get(k) is v for k, v in snap.items())
                             run.add(f"C13/module-state-unchanged-by-forward[{tag}]/path{pi}", r.hyps, z3.BoolVal(bool(same)), "property", inst, replay=rp)
+                            # the returned activation must not be a handle on the module's state: copy_ / in-place ops on a result write its
+                            # codes and scale in place, and would then rewrite a calibrated buffer
+                            out1 = r.ps.get("fwd_out")
+                            if is_wrapper(out1):
+                                own = {id(v.root()): k for k, v in mod.fields.items() if isinstance(v, STensor)}
+                                own.update({id(v.root()): f"_buffers.{k}" for k, v in (mod.fields.get("_buffers") or {}).items() if isinstance(v, STensor)})
+                                shared = sorted({f"result.{fo} is module.{own[id(t.root())]}" for fo, t in out1.fields.items() if isinstance(t, STensor) and id(t.root()) in own})
+                                run.add(f"C13/result-aliases-module-state/forward-result-shares-no-storage-with-the-module[{tag}]/path{pi}", r.hyps, z3.BoolVal(not shared), "property", inst,
+                                        {"shared": shared}, replay=lambda m, s, i=dict(inst): replay_result_alias(m, s, i))
     # ---- library entry points: quantize_weight / quantize_activation never modify the float tensors they read
     for fn, qnames in (("quantize_weight", ("qint8", "qfloat8_e4m3fn", "qint4", "qint2")), ("quantize_activation", ("qint8", "qfloat8_e5m2"))):
         for qn in qnames:
@@ -513,6 +523,38 @@ def replay_scoping(model, seed, inst):
     return None
 
 
+def replay_result_alias(model, seed, inst):
+    """out = module(x); out.copy_(p) must not change the module (its calibrated scales)."""
+    import torch
+    from optimum.quanto import absmax_scale, qtypes, quantize_activation
+    from optimum.quanto.nn import QConv2d, QLayerNorm, QLinear
+
+    torch.manual_seed(seed)
+    if inst["activations"] is None:
+        return None
+    kw = {"weights": qtypes[inst["weights"]] if inst["module"] != "layernorm" else None, "activations": qtypes[inst["activations"]]}
+    if inst["module"] == "linear":
+        m, x = QLinear(8, 4, **kw), torch.randn(2, 8)
+    elif inst["module"] == "conv2d":
+        m, x = QConv2d(4, 2, 1, **kw), torch.randn(1, 4, 2, 2)
+    else:
+        m, x = QLayerNorm((8,), **kw), torch.randn(2, 8)
+    m.input_scale.fill_(0.02); m.output_scale.fill_(0.03)
+    if inst["frozen"]:
+        m.freeze()
+    with torch.no_grad():
+        out = m(x)
+        if not hasattr(out, "_scale"):
+            return None
+        before = {k: v.clone() for k, v in m.state_dict().items() if type(v) is torch.Tensor}
+        t = torch.randn(*out.shape) * 50
+        out.copy_(quantize_activation(t, out.qtype, absmax_scale(t, out.qtype)))
+    for k, v in before.items():
+        if not torch.equal(v, m.state_dict()[k]):
+            return {"what": f"writing into the result of forward (out.copy_(p)) changed the module's '{k}'", "before": v.flatten()[:3].tolist(), "after": m.state_dict()[k].flatten()[:3].tolist()}
+    return None
+
+
 def replay_frames(model, seed, inst):
     import copy
     import torch
@@ -566,7 +608,7 @@ def replay_file(path):
     import json
     rec = json.load(open(path))
     inst = rec["instance"]
-    r = replay_scoping({}, 0, inst) if inst.get("lemma") == "scoping" else replay_frames({}, 0, inst) if inst.get("lemma") == "frame" else \
+    r = replay_result_alias({}, 0, inst) if "result-aliases-module-state" in rec.get("obligation", "") else replay_scoping({}, 0, inst) if inst.get("lemma") == "scoping" else replay_frames({}, 0, inst) if inst.get("lemma") == "frame" else \
         replay_quantize_frame({}, 0, inst) if inst.get("lemma") == "quantize() frame" else None
     print(json.dumps(r, indent=1, default=str))
     return 1 if r else 0
